@@ -207,14 +207,28 @@ def rule_tls(ctx, facts, inv):
         for b in fn.calls_re(r"std::thread::local::LocalKey::<T>::try_with$", cleanup=False):
             n += 1
             dest = fn.term(b)["dest"]["l"]
+            # the locals the Result is moved through (`let r = KEY.try_with(..); r.ok()`); a Result nobody looks at
+            # (`let _ = KEY.try_with(..)`) cannot be unwrapped either
+            holders = {dest}
+            grew = True
+            while grew:
+                grew = False
+                for blk in fn.blocks:
+                    for st in blk["stmts"]:
+                        if st["k"] == "assign" and not st["lhs"]["p"] and st["rv"]["k"] == "use" and st["rv"]["op"]["k"] in ("move", "copy") \
+                                and not st["rv"]["op"]["p"] and st["rv"]["op"]["l"] in holders and st["lhs"]["l"] not in holders and st["lhs"]["l"] != 0:
+                            holders.add(st["lhs"]["l"])
+                            grew = True
             users = []
             for cb in fn.calls():
-                for a in fn.term(cb)["args"][:1]:
-                    if a["k"] in ("move", "copy") and root_local(fn, a)[0] == dest and not passes_downcast(fn, a):
+                for a in fn.term(cb)["args"]:
+                    if a["k"] in ("move", "copy") and root_local(fn, a)[0] in holders and not passes_downcast(fn, a):
                         users.append(fn.term(cb)["callee"])      # the Result itself, not the payload taken out of a matched Ok(..)
-            matched = any((fn.switch_info(sb) or {}).get("kind") == "discr" and fn.switch_info(sb)["place"]["l"] == dest
-                          for sb in range(len(fn.blocks)))
-            ok = bool(users or matched) and all(re.search(r"Result::<T, E>::(ok|unwrap_or_default|unwrap_or_else|unwrap_or|map|is_ok|is_err|and_then|map_err)$", u)
+            returned = any(st["k"] == "assign" and st["lhs"]["l"] == 0 and st["rv"]["k"] == "use" and st["rv"]["op"]["k"] in ("move", "copy")
+                           and st["rv"]["op"]["l"] in holders for blk in fn.blocks for st in blk["stmts"])
+            if returned:
+                users.append("(returned to the caller)")
+            ok = all(re.search(r"Result::<T, E>::(ok|unwrap_or_default|unwrap_or_else|unwrap_or|map|is_ok|is_err|and_then|map_err)$", u)
                                                 or re.search(r"Try>?::branch$|mem::drop$", u) for u in users)
             ctx.check(ok, "R3", fn.path, fn.loc(b),
                       "the result of LocalKey::try_with is consumed without unwrap (calls during thread teardown degrade to no-ops)",
